@@ -73,28 +73,34 @@ CheckCtx(r) ==
       RECURSIVE Before(_)
       Before(s) == IF s = 1 THEN 0 ELSE Before(s - 1) + Len(kept(s - 1))
       total == Before(Len(srcs) + 1)
-      \* row number g (1-based) belongs to source SrcOf(g)
+      \* --skip S --take T (r.skip, r.take when the record has them): the rows are those of the values S+1 .. S+T, with the context of the unlimited run
+      off == IF "skip" \in DOMAIN r THEN r.skip ELSE 0
+      lim == IF "take" \in DOMAIN r THEN r.take ELSE -1
+      expect == LET rest == IF total > off THEN total - off ELSE 0 IN IF lim # -1 /\ lim < rest THEN lim ELSE rest
+      \* value number g (1-based, among the kept values of the run) belongs to source SrcOf(g)
       SrcOf(g) == CHOOSE s \in 1..Len(srcs) : Before(s) < g /\ g <= Before(s) + Len(kept(s))
-      Good(g) ==
-        LET s == SrcOf(g)
+      Good(n) ==
+        LET g == n + off
+            s == SrcOf(g)
             k == g - Before(s)
             vi == kept(s)[k]
-            row == rows[g].v
+            row == rows[n].v
             so == OffsetOf(srcs[s], IntOf(RowField(row, nSL)), IntOf(RowField(row, nSC)))
             eo == OffsetOf(srcs[s], IntOf(RowField(row, nEL)), IntOf(RowField(row, nEC)))
-            prevEnd == IF k = 1 THEN 0 ELSE OffsetOf(srcs[s], IntOf(RowField(rows[g - 1].v, nEL)), IntOf(RowField(rows[g - 1].v, nEC)))
-        IN /\ HasCtxFields(rows[g].v) /\ (k = 1 \/ HasCtxFields(rows[g - 1].v))      \* a selector that yields nothing leaves its column out
+            known == k = 1 \/ n > 1                 \* the end of the previous value of this file: 0, or the end the previous row reports
+            prevEnd == IF k = 1 THEN 0 ELSE IF n > 1 THEN OffsetOf(srcs[s], IntOf(RowField(rows[n - 1].v, nEL)), IntOf(RowField(rows[n - 1].v, nEC))) ELSE 0
+        IN /\ HasCtxFields(rows[n].v) /\ (k = 1 \/ n = 1 \/ HasCtxFields(rows[n - 1].v))      \* a selector that yields nothing leaves its column out
            /\ IntOf(RowField(row, nI)) = g - 1
            /\ IntOf(RowField(row, nF)) = k - 1
            /\ (IF r.names = <<>> THEN KeyIdx(row, nFN) = 0 ELSE KeyIdx(row, nFN) # 0 /\ RowField(row, nFN) = Str(r.names[s]))
            /\ (lenient \/ FSame(refs[s].vals[vi], RowField(row, nV)))
            /\ so >= 0 /\ so <= refs[s].spans[vi][1] - 1 /\ eo >= refs[s].spans[vi][2] - 1 /\ eo <= Len(srcs[s])      \* the range contains the value's text
-           /\ (IF r.onlyObj THEN so >= prevEnd ELSE so = prevEnd)                                                      \* contiguous, no overlap
+           /\ (IF r.onlyObj \/ ~known THEN so >= prevEnd ELSE so = prevEnd)                                           \* contiguous, no overlap
   IN IF r.res # "ok" THEN Flag("MISMATCH", r.case, "run did not succeed")
      ELSE IF \E s \in 1..Len(srcs) : ~refs[s].ok THEN Flag("GEN", r.case, "a source is not a clean stream")
      ELSE IF \E k \in 1..Len(rows) : ~rows[k].ok \/ rows[k].v.t # "obj" THEN Flag("MISMATCH", r.case, "a row is not a JSON object")
-     ELSE IF Len(rows) # total THEN Flag("MISMATCH", r.case, <<"rows", Len(rows), "values", total>>)
-     ELSE IF \E g \in 1..total : ~Good(g) THEN Flag("MISMATCH", r.case, <<"input context of row", CHOOSE g \in 1..total : ~Good(g)>>)
+     ELSE IF Len(rows) # expect THEN Flag("MISMATCH", r.case, <<"rows", Len(rows), "values", total, "expected rows", expect>>)
+     ELSE IF \E g \in 1..expect : ~Good(g) THEN Flag("MISMATCH", r.case, <<"input context of row", CHOOSE g \in 1..expect : ~Good(g)>>)
      ELSE TRUE
 
 \* ---- C17: delivery independence and files staying separate (relations between real outputs)
